@@ -40,7 +40,7 @@ NAMES = ['a', 'b', 'c', 'pkg_x', 'mod_y', '_p', 'test__init__', 'run__main__', '
 def required_cells(tier):
     return ['resolve:found-module', 'resolve:found-package', 'resolve:absent', 'resolve:broken-chain',
             'resolve:module-and-package', 'roundtrip', 'split', 'import', 'resolve:main-file',
-            'import:failing-leaves-syspath', 'resolve:module-beside-plain-directory', 'import:root-already-on-syspath', 'resolve:extension-module', 'installation:file', 'installation:roundtrip', 'history:resolve-after-deleted', 'history:resolve-after-created']
+            'import:failing-leaves-syspath', 'resolve:module-beside-plain-directory', 'import:root-already-on-syspath', 'resolve:extension-module', 'installation:file', 'installation:roundtrip', 'history:resolve-after-deleted', 'history:resolve-after-created', 'history:init-removed', 'history:init-added', 'path-to-name:every-file']
 
 
 def build(rng, root, uniq):
@@ -103,6 +103,45 @@ def oracle(root, modname):
                 return None, 'broken-chain'
             path = spec.submodule_search_locations[0]
     return spec.origin, ('found-package' if spec.submodule_search_locations else 'found-module')
+
+
+def model_path_to_name(path):
+    """the dotted name of a source file: walk up while the directory is a regular package"""
+    d, f = os.path.split(path)
+    parts = [f[:-3]]
+    while os.path.isfile(os.path.join(d, '__init__.py')):
+        d, b = os.path.split(d)
+        parts.insert(0, b)
+    return '.'.join(parts), d
+
+
+def check_every_file(ctx, root, case, when):
+    """path -> name for every source file of the tree, also the ones no dotted name reaches from the root"""
+    from xdoctest.utils import util_import
+    ok = True
+    for dp, dn, fn in os.walk(root):
+        for f in sorted(fn):
+            if not f.endswith('.py') or f in ('__init__.py', '__main__.py'):
+                continue
+            path = os.path.join(dp, f)
+            exp_name, exp_dir = model_path_to_name(path)
+            ctx.evaluation()
+            try:
+                name = util_import.modpath_to_modname(path)
+                dpath, rel = util_import.split_modpath(path)
+            except Exception as ex:
+                ctx.violation('path-to-name-raised', '%s: modpath_to_modname / split_modpath(%r) raised %r' % (
+                    when, os.path.relpath(path, root), ex), dict(case, path=os.path.relpath(path, root)))
+                ok = False
+                continue
+            if name != exp_name or os.path.realpath(dpath) != os.path.realpath(exp_dir):
+                ctx.violation('path-to-name', '%s: modpath_to_modname(%r) -> %r and split_modpath -> (%r, %r); walking up the '
+                              'regular packages gives %r below %r' % (when, os.path.relpath(path, root), name,
+                                                                      os.path.relpath(dpath, root), rel, exp_name,
+                                                                      os.path.relpath(exp_dir, root)),
+                              dict(case, path=os.path.relpath(path, root)))
+                ok = False
+    return ok
 
 
 def all_names(root):
@@ -264,6 +303,55 @@ def check_tree(ctx, idx, seed):
                                                                got.endswith('.py') and os.path.dirname(got) == os.path.dirname(exp)))
                 else:
                     ctx.cell('history:resolve-after-' + what)
+        if check_every_file(ctx, root, {'index': idx, 'case_seed': seed}, 'as built'):
+            ctx.cell('path-to-name:every-file')
+        # ---- history 2: a directory becomes a package (an __init__.py is added) or stops being one (it is deleted)
+        # after paths below it were already resolved, split and converted back in this process
+        if idx % 2 == 1:
+            dirs = [os.path.join(dp, d) for dp, dn, _ in os.walk(root) for d in dn if d != '__pycache__']
+            rng.shuffle(dirs)
+            flipped = None
+            for d in dirs[:1]:
+                ini = os.path.join(d, '__init__.py')
+                if os.path.exists(ini):
+                    os.unlink(ini)
+                    flipped = ('init-removed', d)
+                else:
+                    with open(ini, 'w') as f:
+                        f.write('')
+                    flipped = ('init-added', d)
+            if flipped:
+                okh = True
+                for name in all_names(root):
+                    exp, cls = oracle(root, name)
+                    ctx.evaluation()
+                    case = {'index': idx, 'case_seed': seed, 'name': name, 'history': flipped[0]}
+                    got = util_import.modname_to_modpath(name, hide_init=False, sys_path=[root])
+                    sbe = bool(got and exp and exp.endswith(tuple(M.EXTENSION_SUFFIXES)) and got.endswith('.py') and
+                               os.path.dirname(got) == os.path.dirname(exp))
+                    if (got and os.path.realpath(got)) != (exp and os.path.realpath(exp)):
+                        ctx.violation('resolve-after-change', 'after %s in %r (same process, everything resolved before): '
+                                      'modname_to_modpath(%r) -> %r, the import system would load %r' % (
+                                          flipped[0], os.path.relpath(flipped[1], root), name, got, exp), case,
+                                      observed=got, expected=exp, source_beside_extension=sbe)
+                        okh = False
+                        continue
+                    if not got:
+                        continue
+                    back = util_import.modpath_to_modname(got)
+                    dpath, rel = util_import.split_modpath(got)
+                    if back != name or os.path.realpath(dpath) != os.path.realpath(root):
+                        ctx.violation('roundtrip-after-change', 'after %s in %r (same process, everything resolved before): '
+                                      'modpath_to_modname(%r) -> %r (expected %r), split_modpath -> (%r, %r)' % (
+                                          flipped[0], os.path.relpath(flipped[1], root), os.path.relpath(got, root), back, name,
+                                          dpath, rel), case)
+                        okh = False
+                if not check_every_file(ctx, root, {'index': idx, 'case_seed': seed, 'history': flipped[0]},
+                                        'after %s in %r (same process, everything resolved before)' % (
+                                            flipped[0], os.path.relpath(flipped[1], root))):
+                    okh = False
+                if okh:
+                    ctx.cell('history:' + flipped[0])
         if ctx.shard == 0:
             ctx.sample({'tree': listing, 'names_resolved': all_names(root)[:12]}, limit=2)
     finally:
